@@ -125,7 +125,7 @@ impl<C: Check> DynCheck for Erased<C> {
     }
     fn run_seed(&self, seed: u64, tier: Tier) -> (RunReport, Value) {
         let sc = self.0.generate(seed, tier);
-        let rep = self.0.execute(&sc);
+        let rep = exec_guarded(&self.0, &sc);
         let v = if rep.violation.is_some() || rep.harness_error.is_some() {
             serde_json::to_value(&sc).unwrap_or(Value::Null)
         } else {
@@ -139,7 +139,7 @@ impl<C: Check> DynCheck for Erased<C> {
     }
     fn execute_value(&self, sc: &Value) -> Result<RunReport, String> {
         let sc: C::Sc = serde_json::from_value(sc.clone()).map_err(|e| e.to_string())?;
-        Ok(self.0.execute(&sc))
+        Ok(exec_guarded(&self.0, &sc))
     }
     fn minimise(&self, sc: &Value, want: &Violation, budget: u32) -> (Value, u32) {
         let Ok(mut cur) = serde_json::from_value::<C::Sc>(sc.clone()) else {
@@ -155,7 +155,7 @@ impl<C: Check> DynCheck for Erased<C> {
                     break 'outer;
                 }
                 used += 1;
-                let rep = self.0.execute(&cand);
+                let rep = exec_guarded(&self.0, &cand);
                 if let Some(v) = &rep.violation {
                     if v.oracle == want.oracle && v.class == want.class {
                         cur = cand;
@@ -170,6 +170,18 @@ impl<C: Check> DynCheck for Erased<C> {
     fn expected_probes(&self) -> Vec<&'static str> {
         self.0.expected_probes()
     }
+}
+
+/// Execute one scenario; if a stand-in (remote shell, coreutils) met something it does not model,
+/// the run is a harness error, never a verdict.
+fn exec_guarded<C: Check>(c: &C, sc: &C::Sc) -> RunReport {
+    let _ = crate::stubs::take_unsupported();
+    let mut rep = c.execute(sc);
+    if let Some(what) = crate::stubs::take_unsupported() {
+        rep.violation = None;
+        rep.harness_error = Some(format!("the remote-shell stand-in met something it does not model ({what}); no verdict"));
+    }
+    rep
 }
 
 pub fn verif_dir() -> PathBuf {
